@@ -14,6 +14,7 @@
 
 #include "common/circuit.hpp"
 #include "common/harness.hpp"
+#include "common/past.hpp"
 #include "place_detailed/place_detailed.hpp"
 
 namespace vd {
@@ -230,6 +231,8 @@ struct Run {
   Snap final;                   // placement after return (only if detailedStatus == ok)
   std::vector<std::string> oplog;  // hook H3 lines interleaved with "cb" markers (empty without the hook)
   bool hasHook = false;
+  // harness self-check (expected empty): the object with a past did not reach the input's public state; phase 2 then ran on a fresh object
+  std::string pastNote;
 };
 
 inline void silenceStdout() {
@@ -252,7 +255,20 @@ inline void oplogHook(const char *kind, const int *args, int n) {
 }
 #endif
 
-inline Run runCase(const Circuit &input, const Params &prm, int timeoutSec = 120) {
+// With `past` (a recipe of common/past.hpp, "" = none) phase 2 runs on an object with a PAST: the child first builds the
+// object in the recipe's perturbed state, calls the observers, brings it to the public state of `input` through only the
+// needed setters, and then calls placeDetailed.  Phase 1 (legalize alone, the reference) always runs on a fresh object.
+// The properties quantify over circuits, not over how the object got there, so nothing else changes: the oracles and the
+// correspondence demand of this run exactly what they demand of a run on a fresh object.
+inline Circuit livedOrFresh(const Circuit &input, const std::string &past, std::ostream &os) {
+  if (past.empty()) return input;
+  std::string err;
+  Circuit c = vc::livePast(past, input, &err);  // a copy of `input` when err is set
+  if (!err.empty()) os << "pastnote " << err << "\n";
+  return c;
+}
+
+inline Run runCase(const Circuit &input, const Params &prm, int timeoutSec = 120, const std::string &past = "") {
   Run r;
   std::string txt, diag;
   // ---- phase 1
@@ -283,7 +299,7 @@ inline Run runCase(const Circuit &input, const Params &prm, int timeoutSec = 120
   std::string st = vh::isolated(
       [&](std::ostream &os) {
         silenceStdout();
-        Circuit c = input;
+        Circuit c = livedOrFresh(input, past, os);
         std::vector<std::string> log;
 #ifdef COLOQUINTE_VERIF_DETAILED_OPLOG
         oplogSink() = &log;
@@ -319,6 +335,7 @@ inline Run runCase(const Circuit &input, const Params &prm, int timeoutSec = 120
   std::string line;
   while (std::getline(is, line)) {
     if (line == "hook") r.hasHook = true;
+    else if (line.rfind("pastnote ", 0) == 0) r.pastNote = line.substr(9);
     else if (line.rfind("status ", 0) == 0) r.detailedStatus = line.substr(7);
     else if (line.rfind("what ", 0) == 0) r.detailedWhat = line.substr(5);
     else if (line.rfind("cb ", 0) == 0) { Snap s; parseSnap(line.substr(3), s); r.callbacks.push_back(s); }
@@ -349,6 +366,7 @@ inline std::string serializeRun(const Run &r) {
   os << "D " << r.detailedStatus << "\n";
   os << "W " << oneLine(r.detailedWhat) << "\n";
   os << "H " << (r.hasHook ? 1 : 0) << "\n";
+  os << "P " << oneLine(r.pastNote) << "\n";
   os << "C " << r.callbacks.size() << "\n";
   for (auto &s : r.callbacks) os << snapLine(s) << "\n";
   os << "F " << snapLine(r.final) << "\n";
@@ -378,6 +396,8 @@ inline bool parseRun(const std::string &blob, Run &r) {
   r.detailedWhat = v;
   if ((v = rest("H")) == "\x02") return false;
   r.hasHook = v == "1";
+  if ((v = rest("P")) == "\x02") return false;
+  r.pastNote = v;
   if ((v = rest("C")) == "\x02") return false;
   for (long long i = 0, n = atoll(v.c_str()); i < n; ++i) {
     if (!std::getline(is, line)) return false;
